@@ -142,7 +142,7 @@ def run(ctx, canary=False):
         if Z == 0 or Z > 2 * 10 ** 6:
             continue
         nrun += 1
-        total = rng.choice([1.0, 10.0, 57.3, 1000.0, 12.75, 3.5, 1.999])
+        total = rng.choice([1.0, 10.0, 57.3, 1000.0, 12.75, 3.5, 1.999, 2.9999999, 999.9999999999])
         method = rng.choice(["round", "round", "sample"])
         rows = rng.choice([None] + rows_menu + ([25, 400] if True else []))
         if method == "sample" and rng.random() < 0.4:
